@@ -14,11 +14,11 @@ import (
 
 // ---- runtime view of a generated encoder configuration -------------------------------------------------
 
-func noopLevel(zapcore.Level, zapcore.PrimitiveArrayEncoder)          {}
-func noopTime(time.Time, zapcore.PrimitiveArrayEncoder)               {}
-func noopDur(time.Duration, zapcore.PrimitiveArrayEncoder)            {}
-func noopCaller(zapcore.EntryCaller, zapcore.PrimitiveArrayEncoder)   {}
-func noopName(string, zapcore.PrimitiveArrayEncoder)                  {}
+func noopLevel(zapcore.Level, zapcore.PrimitiveArrayEncoder)        {}
+func noopTime(time.Time, zapcore.PrimitiveArrayEncoder)             {}
+func noopDur(time.Duration, zapcore.PrimitiveArrayEncoder)          {}
+func noopCaller(zapcore.EntryCaller, zapcore.PrimitiveArrayEncoder) {}
+func noopName(string, zapcore.PrimitiveArrayEncoder)                {}
 
 func buildConfig(c encCfg) zapcore.EncoderConfig {
 	cfg := zapcore.EncoderConfig{
@@ -91,25 +91,25 @@ type subRec struct {
 	raw   []any
 }
 
-func (r *subRec) add(p *encPrim, raw any)        { r.prims = append(r.prims, p); r.raw = append(r.raw, raw) }
-func (r *subRec) AppendBool(v bool)              { r.add(&encPrim{B: &v}, v) }
-func (r *subRec) AppendByteString(v []byte)      { s := hx(v); r.add(&encPrim{BS: &s}, v) }
-func (r *subRec) AppendComplex128(v complex128)  { r.add(mkComplex(v, 128), v) }
-func (r *subRec) AppendComplex64(v complex64)    { r.add(mkComplex(complex128(v), 64), v) }
-func (r *subRec) AppendFloat64(v float64)        { r.add(mkFloat64(v), v) }
-func (r *subRec) AppendFloat32(v float32)        { r.add(mkFloat32(v), v) }
-func (r *subRec) AppendInt(v int)                { r.add(mkInt(int64(v)), v) }
-func (r *subRec) AppendInt64(v int64)            { r.add(mkInt(v), v) }
-func (r *subRec) AppendInt32(v int32)            { r.add(mkInt(int64(v)), v) }
-func (r *subRec) AppendInt16(v int16)            { r.add(mkInt(int64(v)), v) }
-func (r *subRec) AppendInt8(v int8)              { r.add(mkInt(int64(v)), v) }
-func (r *subRec) AppendString(v string)          { s := hx([]byte(v)); r.add(&encPrim{S: &s}, v) }
-func (r *subRec) AppendUint(v uint)              { r.add(mkUint(uint64(v)), v) }
-func (r *subRec) AppendUint64(v uint64)          { r.add(mkUint(v), v) }
-func (r *subRec) AppendUint32(v uint32)          { r.add(mkUint(uint64(v)), v) }
-func (r *subRec) AppendUint16(v uint16)          { r.add(mkUint(uint64(v)), v) }
-func (r *subRec) AppendUint8(v uint8)            { r.add(mkUint(uint64(v)), v) }
-func (r *subRec) AppendUintptr(v uintptr)        { r.add(mkUint(uint64(v)), v) }
+func (r *subRec) add(p *encPrim, raw any)       { r.prims = append(r.prims, p); r.raw = append(r.raw, raw) }
+func (r *subRec) AppendBool(v bool)             { r.add(&encPrim{B: &v}, v) }
+func (r *subRec) AppendByteString(v []byte)     { s := hx(v); r.add(&encPrim{BS: &s}, v) }
+func (r *subRec) AppendComplex128(v complex128) { r.add(mkComplex(v, 128), v) }
+func (r *subRec) AppendComplex64(v complex64)   { r.add(mkComplex(complex128(v), 64), v) }
+func (r *subRec) AppendFloat64(v float64)       { r.add(mkFloat64(v), v) }
+func (r *subRec) AppendFloat32(v float32)       { r.add(mkFloat32(v), v) }
+func (r *subRec) AppendInt(v int)               { r.add(mkInt(int64(v)), v) }
+func (r *subRec) AppendInt64(v int64)           { r.add(mkInt(v), v) }
+func (r *subRec) AppendInt32(v int32)           { r.add(mkInt(int64(v)), v) }
+func (r *subRec) AppendInt16(v int16)           { r.add(mkInt(int64(v)), v) }
+func (r *subRec) AppendInt8(v int8)             { r.add(mkInt(int64(v)), v) }
+func (r *subRec) AppendString(v string)         { s := hx([]byte(v)); r.add(&encPrim{S: &s}, v) }
+func (r *subRec) AppendUint(v uint)             { r.add(mkUint(uint64(v)), v) }
+func (r *subRec) AppendUint64(v uint64)         { r.add(mkUint(v), v) }
+func (r *subRec) AppendUint32(v uint32)         { r.add(mkUint(uint64(v)), v) }
+func (r *subRec) AppendUint16(v uint16)         { r.add(mkUint(uint64(v)), v) }
+func (r *subRec) AppendUint8(v uint8)           { r.add(mkUint(uint64(v)), v) }
+func (r *subRec) AppendUintptr(v uintptr)       { r.add(mkUint(uint64(v)), v) }
 
 func (r *subRec) one() (*encPrim, *string) {
 	if len(r.prims) == 0 {
